@@ -16,6 +16,7 @@ package main
 import (
 	"encoding/json"
 	"errors"
+	"flag"
 	"fmt"
 	"os"
 	"reflect"
@@ -52,7 +53,11 @@ func main() {
 	}
 	switch os.Args[1] {
 	case "quick", "thorough":
-		os.Exit(run(os.Args[1]))
+		fs := flag.NewFlagSet("c10", flag.ExitOnError)
+		merge := fs.String("merge", "", "result file of `checks/C20 c10version <tier>` (version protocol on the real manager) to fold into the evidence")
+		skip := fs.String("skip-transcription", "", "reason: do not run the transcribed version-triple enumeration")
+		_ = fs.Parse(os.Args[2:])
+		os.Exit(run(os.Args[1], *merge, *skip))
 	case "replay":
 		if len(os.Args) < 3 {
 			fmt.Fprintln(os.Stderr, "usage: c10 replay <file>")
@@ -65,7 +70,7 @@ func main() {
 	}
 }
 
-func run(tier string) int {
+func run(tier, mergePath, skipTranscription string) int {
 	start := time.Now()
 	rep := imc.NewReporter(prop)
 	sc, budget := crossScope{AUnits: 4, ACounts: 3, ADLen: 3, AMLen: 3, A4: true, BDLen: 2, BMLen: 2}, 90*time.Second
@@ -89,8 +94,40 @@ func run(tier string) int {
 		runHashSensitivity(bases, rep, counters, sampler)
 		runHashOrder(bases, rep, counters, sampler)
 	}
-	if !runVersion(rep, counters, sampler) {
-		exhaustive = false
+	extras := map[string]interface{}{}
+	if skipTranscription != "" {
+		// the update-event branch of manager.run is not the text the harness transcribes: the
+		// triple enumeration would test the transcription, not the tree. The version protocol on
+		// the real manager (merged below, when available) is what decides this part then.
+		extras["version_transcription_skipped"] = true
+		extras["version_transcription_skipped_reason"] = skipTranscription
+		fmt.Println("note: transcribed version-triple enumeration skipped:", skipTranscription)
+	} else {
+		extras["version_transcription_skipped"] = false
+		if !runVersion(rep, counters, sampler) {
+			exhaustive = false
+		}
+	}
+	var vp *versionProtocol
+	if mergePath != "" {
+		var err error
+		if vp, err = loadVersionProtocol(mergePath, tier); err != nil {
+			rep.Machinery(err)
+		} else {
+			for _, v := range vp.Violations {
+				rep.ViolationAt(v.Signature, "version protocol on the real manager (checks/C20 c10version): "+v.Message, v.Replay)
+			}
+			exhaustive = exhaustive && vp.Exhaustive
+			extras["version_protocol"] = vp.raw
+			counters.Add("evaluations", vp.Executions)
+			counters.Add("version_protocol/executions", vp.Executions)
+			counters.Add("version_protocol/distinct_outcomes", vp.DistinctOutcomes)
+		}
+	} else {
+		extras["version_protocol"] = "not merged (checks/C20 has no c10version mode yet)"
+		if skipTranscription != "" {
+			exhaustive = false // nothing covered the version clause in this run
+		}
 	}
 
 	type grammar struct {
@@ -153,11 +190,11 @@ func run(tier string) int {
 			"Every pair of a product is a distinct input by construction. distinct_nontrivial counts, measured per pair: accept class = pairs the oracle accepts although the manifest " +
 			"is not the service-by-service copy of the group (a genuine split, merge or reordering; for C also any accepted multi-group pair); reject class = pairs the oracle rejects " +
 			"although the replica sums (A, B, D) or the group counts (C) agree (near misses: one unit class, one count or one endpoint differs); plus version triples with at least one " +
-			"update in which the submitted version occurs on chain; plus every hash mutation and reordering (each is a distinct input). Both verdict classes are in extras.class_counts " +
+			"update in which the submitted version occurs on chain (transcribed enumeration; the merged version-protocol executions of checks/C20 add to evaluations only); plus every hash mutation and reordering (each is a distinct input). Both verdict classes are in extras.class_counts " +
 			"(oracle_accept/*, oracle_reject/*, version/oracle_accept, version/oracle_reject).",
 		Samples:    sampler.Samples(),
 		Exhaustive: exhaustive && rep.Broken == nil,
-		Extra: map[string]interface{}{
+		Extra: mergeExtras(extras, map[string]interface{}{
 			"class_counts":         c,
 			"spaces":               spaces,
 			"nontrivial_accept":    ntAccept,
@@ -168,14 +205,58 @@ func run(tier string) int {
 			"bare_comparison_note": "bare_accepts_duplicate_group_names counts manifests with two groups of one name that ValidateManifestWithDeployment alone accepts; the provider path is guarded by ValidateManifest (checked: provider/* signatures)",
 			"version_enumeration":  "chain histories c0..cn, n<=2, over 7 version values (4 manifests, nil, truncated, bit-flipped) x observed updates s+1..n x query saw c_f (f in s..n) x p updates delivered before the query answer x 4 submitted manifests; verdict after all events",
 			"hash_enumeration":     "3 base manifests (rich hand-built, minimal, derived from an SDL); all single-field mutations by a reflective walk; JSON key orders: each object alone in <=24 permutations + rotations, all reversed, all descending",
-		},
+		}),
 	}
 	return imc.Finish(rep, tier, start, cov, []string{
-		"the update-event handler of manager.run (two statements) is transcribed in the in-package harness; checks/C10 fails with exit 2 if that case of manager.run no longer has the transcribed text",
+		"the update-event handler of manager.run (two statements) is transcribed in the in-package harness for the triple enumeration; if that case of manager.run no longer has the transcribed text the enumeration is skipped (version_transcription_skipped) and the version clause rests on the merged version_protocol result of checks/C20 c10version (real manager under the controlled scheduler)",
 		"the hostname reservation service is a stub that always answers 'free'",
 		"version verdicts are taken when all update events have been delivered (no claim about the window in which an event is still in flight)",
 		"unit classes: cpu, memory, storage quantities and cpu attributes; memory/storage attributes are outside the alphabet",
 	})
+}
+
+func mergeExtras(a, b map[string]interface{}) map[string]interface{} {
+	for k, v := range a {
+		b[k] = v
+	}
+	return b
+}
+
+// versionProtocol is /verif/build/c10-version.json, written by `checks/C20 c10version <tier>`: the
+// version protocol explored on the REAL manifest manager under the controlled scheduler.
+type versionProtocol struct {
+	Part             string `json:"part"`
+	Tier             string `json:"tier"`
+	Executions       int64  `json:"executions"`
+	States           int64  `json:"states"`
+	Transitions      int64  `json:"transitions"`
+	DistinctOutcomes int64  `json:"distinct_outcomes"`
+	Exhaustive       bool   `json:"exhaustive"`
+	Violations       []struct {
+		Signature string `json:"signature"`
+		Message   string `json:"message"`
+		Replay    string `json:"replay"`
+	} `json:"violations"`
+	raw json.RawMessage
+}
+
+func loadVersionProtocol(path, tier string) (*versionProtocol, error) {
+	raw, err := os.ReadFile(path)
+	if err != nil {
+		return nil, fmt.Errorf("version-protocol result: %w", err)
+	}
+	var vp versionProtocol
+	if err := json.Unmarshal(raw, &vp); err != nil {
+		return nil, fmt.Errorf("version-protocol result %s: %w", path, err)
+	}
+	if vp.Part != "version-protocol" {
+		return nil, fmt.Errorf("version-protocol result %s: part is %q", path, vp.Part)
+	}
+	if vp.Tier != "" && vp.Tier != tier {
+		return nil, fmt.Errorf("version-protocol result %s is of tier %q, this run is %q", path, vp.Tier, tier)
+	}
+	vp.raw = raw
+	return &vp, nil
 }
 
 func replay(path string) int {
